@@ -228,6 +228,9 @@ func preload(round string, flags *cmd.ExecuteFlags) {
 
 			cmd.ApplyParserFlags(&p)
 
+			// --row names a row of the file being analysed, not of a preloaded one
+			p.LspTargetRow = 0
+
 			evaluationLoop(p, flags, round, true)
 
 			fp.Close()
